@@ -8,14 +8,15 @@ struct Scripted(HashMap<String, char>, Arc<Mutex<Vec<String>>>);
 impl Filterer for Scripted {
     fn check_event(&self, ev: &Event, _p: Priority) -> Result<bool, RuntimeError> {
         let id = ev.metadata.get("id").and_then(|v| v.first()).cloned().unwrap_or_default();
-        self.1.lock().unwrap().push(id.clone());
+        if !id.starts_with("fl") { self.1.lock().unwrap().push(id.clone()); }
+        if id.starts_with("fl") { return Ok(false); }
         match self.0.get(&id) { Some('r') => Ok(false), Some('e') => Err(RuntimeError::External(format!("inj {id}").into())), _ => Ok(true) }
     }
 }
 
 // case: <id> <throttle_ms> <handler_ms> <arrivals: off:id:prio(l|n|h|u):kind(t|e):verdict(p|r|e),…>
 /// `ecap` / `edelay`: capacity of the runtime-error channel and time the error consumer spends per error (a slow `on_error`)
-async fn run_case(throttle: u64, handler_ms: u64, arrivals: Vec<(u64, String, Priority, bool, char)>, changes: Vec<(u64, u64)>, ecap: usize, edelay: u64) -> String {
+async fn run_case(throttle: u64, handler_ms: u64, arrivals: Vec<(u64, String, Priority, bool, char)>, changes: Vec<(u64, u64)>, ecap: usize, edelay: u64, floods: Vec<(u64, u64)>) -> String {
     let config = Arc::new(Config::default());
     config.throttle(Duration::from_millis(throttle));
     let seen_by_filter = Arc::new(Mutex::new(vec![]));
@@ -40,6 +41,17 @@ async fn run_case(throttle: u64, handler_ms: u64, arrivals: Vec<(u64, String, Pr
     // run-time throttle changes (`off:T:ms` items), made from another task like a handler or a client would
     let t0_tokio = tokio::time::Instant::from_std(t0);
     let changer = tokio::spawn({ let config = config.clone(); async move { for (off, ms) in changes { tokio::time::sleep_until(t0_tokio + Duration::from_millis(off)).await; config.throttle(Duration::from_millis(ms)); } } });
+    // floods (`off:F:ms` items): a task that keeps the event queue supplied with filter-REJECTED events for `ms` milliseconds
+    let flooders: Vec<_> = floods.iter().map(|(off, dur)| { let ev_s = ev_s.clone(); let (off, dur) = (*off, *dur); tokio::spawn(async move {
+        tokio::time::sleep_until(t0_tokio + Duration::from_millis(off)).await;
+        let end = Instant::now() + Duration::from_millis(dur); let mut n = 0u64;
+        while Instant::now() < end {
+            n += 1;
+            let ev = Event { tags: vec![Tag::Source(Source::Internal)], metadata: HashMap::from([("id".to_string(), vec![format!("fl{n}")])]) };
+            if ev_s.send(ev, Priority::Normal).await.is_err() { break; }
+            if n % 8 == 0 { tokio::task::yield_now().await; }
+        } }) }).collect();
+    let flood_ms: u64 = floods.iter().map(|(o, d)| o + d).max().unwrap_or(0);
     let mut sent = vec![];
     for (off, id, prio, empty, _) in &arrivals {
         tokio::time::sleep_until(tokio::time::Instant::from_std(t0 + Duration::from_millis(*off))).await;
@@ -50,6 +62,8 @@ async fn run_case(throttle: u64, handler_ms: u64, arrivals: Vec<(u64, String, Pr
     }
     let maxthr = changer.await.map(|_| ()).ok().map(|_| config.throttle.get().as_millis() as u64).unwrap_or(throttle).max(throttle);
     let nerr = arrivals.iter().filter(|a| a.4 == 'e').count() as u64;
+    for f in flooders { let _ = f.await; }
+    let _ = flood_ms;
     tokio::time::sleep(Duration::from_millis(maxthr + 150 + handler_ms * 2 + edelay * (nerr + 1))).await;
     w.abort();
     let mut errs = errcount.load(std::sync::atomic::Ordering::SeqCst);
@@ -68,14 +82,15 @@ fn main() {
             for line in chunk {
                 let f: Vec<String> = line.split(' ').map(|s| s.to_string()).collect();
                 let changes: Vec<(u64, u64)> = f[3].split(',').filter_map(|a| { let x: Vec<&str> = a.split(':').collect(); if x[1] == "T" { Some((x[0].parse().unwrap(), x[2].parse().unwrap())) } else { None } }).collect();
-                let arr: Vec<(u64, String, Priority, bool, char)> = f[3].split(',').filter(|a| a.split(':').nth(1) != Some("T")).map(|a| { let x: Vec<&str> = a.split(':').collect();
+                let floods: Vec<(u64, u64)> = f[3].split(',').filter_map(|a| { let x: Vec<&str> = a.split(':').collect(); if x[1] == "F" { Some((x[0].parse().unwrap(), x[2].parse().unwrap())) } else { None } }).collect();
+                let arr: Vec<(u64, String, Priority, bool, char)> = f[3].split(',').filter(|a| a.split(':').nth(1) != Some("T") && a.split(':').nth(1) != Some("F")).map(|a| { let x: Vec<&str> = a.split(':').collect();
                     (x[0].parse().unwrap(), x[1].to_string(), match x[2] { "l" => Priority::Low, "h" => Priority::High, "u" => Priority::Urgent, _ => Priority::Normal }, x[3] == "e", x[4].chars().next().unwrap()) }).collect();
                 // handler field: `<ms>` or `<ms>e<error channel capacity>x<ms per error>`
                 let (hms, ecfg) = f[2].split_once('e').map(|(a, b)| (a.to_string(), Some(b.to_string()))).unwrap_or((f[2].clone(), None));
                 let (ecap, edelay): (usize, u64) = ecfg.map(|e| { let (c, d) = e.split_once('x').unwrap(); (c.parse().unwrap(), d.parse().unwrap()) }).unwrap_or((64, 0));
                 let (th, hm) = (f[1].parse().unwrap(), hms.parse().unwrap());
                 let id = f[0].clone();
-                cur.push(tokio::spawn(async move { format!("{} {}", id, run_case(th, hm, arr, changes, ecap, edelay).await) }));
+                cur.push(tokio::spawn(async move { format!("{} {}", id, run_case(th, hm, arr, changes, ecap, edelay, floods).await) }));
             }
             for h in cur { hs.push(h.await.unwrap()); }
         }
